@@ -6,6 +6,7 @@ import (
 	"reflect"
 	"strconv"
 	"strings"
+	"unicode/utf8"
 
 	flags "github.com/jessevdk/go-flags"
 )
@@ -19,6 +20,7 @@ type Opt struct {
 
 	Desc        string
 	Defaults    []string
+	DefaultsAPI []string // assigned to Option.Default by the program after the parser is built (the field has no default tag)
 	Required    string // tag text ("" = not given)
 	Optional    string // tag text
 	OptionalVal []string
@@ -153,6 +155,7 @@ type PosArg struct {
 	Required string // per-field required tag
 	Desc     string
 	Base     string // base tag (integer fields)
+	MaxAPI   int    // > 0: the program sets Arg.RequiredMaximum to this after the parser is built (no minimum is set)
 
 	ID    string
 	Owner *Cmd
@@ -197,6 +200,7 @@ type Cmd struct {
 
 // Decl is a whole declaration.
 type Decl struct {
+	viaAdd     bool // while BuildAdded runs: addable options are left untagged in the structs and added with (*Group).AddOption
 	Top        *Cmd
 	Options    flags.Options
 	NsDelim    string // "" = library default "."
@@ -206,7 +210,15 @@ type Decl struct {
 	types map[string]reflect.Type // generated struct types (a Decl is immutable after Finish)
 }
 
+// addable: the option has no attribute that only a struct tag can carry, so it can be handed over with (*Group).AddOption.
+func (o *Opt) addable() bool {
+	return o.Base == "" && o.Unquote == "" && o.NoIni == "" && o.IniName == "" && o.Extra == ""
+}
+
 func (d *Decl) cached(key string, f func() reflect.Type) reflect.Type {
+	if d.viaAdd {
+		key = "added/" + key
+	}
 	if t, ok := d.types[key]; ok {
 		return t
 	}
@@ -373,9 +385,41 @@ var sentinelFields = []reflect.StructField{
 func (d *Decl) optFields(opts []*Opt) []reflect.StructField {
 	var fs []reflect.StructField
 	for _, o := range opts {
+		if d.viaAdd && o.addable() {
+			fs = append(fs, sf(o.Field, o.Type.RT, ""))
+			continue
+		}
 		fs = append(fs, sf(o.Field, o.Type.RT, o.Tag()))
 	}
 	return fs
+}
+
+// addOptions hands every addable option of opts to the library with (*Group).AddOption, bound to its (untagged) field in v.
+func (b *Built) addOptions(g *flags.Group, v reflect.Value, opts []*Opt) {
+	if !b.Decl.viaAdd {
+		return
+	}
+	for _, o := range opts {
+		if !o.addable() {
+			continue
+		}
+		fo := &flags.Option{LongName: o.Long, Description: o.Desc, Default: append([]string(nil), o.Defaults...), DefaultMask: o.DefaultMask,
+			EnvDefaultKey: o.Env, EnvDefaultDelim: o.EnvDelim, OptionalArgument: truthy(o.Optional), OptionalValue: append([]string(nil), o.OptionalVal...),
+			Required: truthy(o.Required), ValueName: o.ValueName, Choices: append([]string(nil), o.Choices...), Hidden: truthy(o.Hidden)}
+		if o.Short != "" {
+			r, _ := utf8.DecodeRuneInString(o.Short)
+			fo.ShortName = r
+		}
+		g.AddOption(fo, v.FieldByName(o.Field).Addr().Interface())
+	}
+}
+
+// BuildAdded is BuildAPI with every option that needs no tag-only attribute handed over with (*Group).AddOption
+// instead of being declared by a struct tag (the struct field is there, untagged, and holds the value).
+func (d *Decl) BuildAdded() *Built {
+	d.viaAdd = true
+	defer func() { d.viaAdd = false }()
+	return d.BuildAPIWith(nil)
 }
 
 func (d *Decl) groupType(g *Group) reflect.Type {
@@ -387,7 +431,11 @@ func (d *Decl) groupType0(g *Group) reflect.Type {
 	if d.Sentinels {
 		fs = append(fs, sentinelFields...)
 	}
+	// a group declared by a tag inside another struct keeps its options declared by tags on every build path
+	va := d.viaAdd
+	d.viaAdd = false
 	fs = append(fs, d.optFields(g.Opts)...)
+	d.viaAdd = va
 	for _, gg := range g.Groups {
 		fs = append(fs, sf(gg.Field, d.groupType(gg), groupTag(gg)))
 	}
@@ -657,6 +705,7 @@ func (d *Decl) BuildTags() *Built {
 		}
 	}
 	mapCmds(p.Command, d.Top)
+	b.applyArgAPI()
 	return b
 }
 
@@ -698,6 +747,7 @@ func (d *Decl) BuildAPIWith(between func(b *Built)) *Built {
 			fg.Namespace = g.Namespace
 			fg.EnvNamespace = g.EnvNamespace
 			fg.Hidden = g.Hidden
+			b.addOptions(fg, gv.Elem(), g.Opts)
 			if between != nil && len(g.Groups) > 0 {
 				// late build: the parser is used once more before the nested groups arrive through (*Group).AddGroup
 				between(b)
@@ -713,8 +763,10 @@ func (d *Decl) BuildAPIWith(between func(b *Built)) *Built {
 	})
 	tv := reflect.New(tt)
 	b.bindCmd(tv.Elem(), &Cmd{Opts: d.Top.Opts, Pos: d.Top.Pos}, false, true, "api.top")
-	if _, err := p.AddGroup("Application Options", "", tv.Interface()); err != nil {
+	if tg, err := p.AddGroup("Application Options", "", tv.Interface()); err != nil {
 		return fail(err)
+	} else {
+		b.addOptions(tg, tv.Elem(), d.Top.Opts)
 	}
 	if between == nil {
 		if err := addGroups(p.Command, d.Top.Groups); err != nil {
@@ -773,8 +825,10 @@ func (d *Decl) BuildAPIWith(between func(b *Built)) *Built {
 					gv := reflect.New(gt)
 					b.bindSentinels(gv.Elem(), "api.cmd."+c.Name)
 					b.bindOpts(gv.Elem(), c.Opts, "api.cmd."+c.Name)
-					if _, err := fc.AddGroup(c.Name+" options", "", gv.Interface()); err != nil {
+					if og, err := fc.AddGroup(c.Name+" options", "", gv.Interface()); err != nil {
 						return err
+					} else {
+						b.addOptions(og, gv.Elem(), c.Opts)
 					}
 				}
 			} else {
@@ -786,6 +840,7 @@ func (d *Decl) BuildAPIWith(between func(b *Built)) *Built {
 				if err != nil {
 					return err
 				}
+				b.addOptions(fc.Group, cv.Elem(), c.Opts)
 			}
 			fc.Aliases = c.Aliases
 			if c.ArgsRequiredAPI {
@@ -814,6 +869,7 @@ func (d *Decl) BuildAPIWith(between func(b *Built)) *Built {
 			return fail(err)
 		}
 	}
+	b.applyArgAPI()
 	return b
 }
 
@@ -822,6 +878,28 @@ func sentinelIf(d *Decl) []reflect.StructField {
 		return append([]reflect.StructField{}, sentinelFields...)
 	}
 	return nil
+}
+
+// applyArgAPI sets what a program sets on the Arg values of a built parser.
+func (b *Built) applyArgAPI() {
+	for c, fc := range b.Cmds {
+		if fc == nil {
+			continue
+		}
+		args := fc.Args()
+		for i, a := range c.Pos {
+			if a.MaxAPI > 0 && i < len(args) {
+				args[i].RequiredMaximum = a.MaxAPI
+			}
+		}
+	}
+	for _, o := range b.Decl.EveryOpt() {
+		if len(o.DefaultsAPI) > 0 && o.Long != "" && b.Parser != nil {
+			if fo := b.Parser.FindOptionByLongName(o.LongNS); fo != nil {
+				fo.Default = append([]string(nil), o.DefaultsAPI...)
+			}
+		}
+	}
 }
 
 // ActiveChain returns the names of the active commands below the parser.
